@@ -128,3 +128,30 @@ Print Assumptions c14_brute_matcher_contract.
 Print Assumptions c14_planar_mwpm_brute_corrects.
 Print Assumptions c14_defects_matching_le_weight.
 Print Assumptions c14_light_commuting_in_span.
+
+(* ---- re-exported by tools/reexport.py: statements copied from `Check`, closed by `exact` ---- *)
+From QV Require Import Decoders.ToricErrPairs Decoders.ToricMwpmCorrect Decoders.ToricMwpmBrute.
+Theorem c14_toric_mwpm_corrects_all : toric_mwpm_corrects_statement.
+Proof. exact toric_mwpm_corrects_all. Qed.
+Theorem c14_toric_mwpm_decode_corrects : forall matcher : list (Z * Z * Z * (Z * Z * Z) * option Z) -> list (Z * Z * Z) -> list (Z * Z * Z * (Z * Z * Z)), (forall (g : list (Z * Z * Z * (Z * Z * Z) * option Z)) (nodes : list (Z * Z * Z)), (exists m : list (Z * Z * Z * (Z * Z * Z)), Permutation.Permutation (MwpmRel.ends2 m) nodes /\ tuses g m) -> tmin_matching g nodes (matcher g nodes)) -> forall rows cols : Z, 2 <= rows -> 2 <= cols -> forall e : bsf, let n := Toric.toric_n rows cols in let S := Code.stabs (Toric.toric_code rows cols) in length e = (n + n)%nat -> Z.of_nat (count_true (firstn n e)) <= (Z.min rows cols - 1) / 2 -> Z.of_nat (count_true (skipn n e)) <= (Z.min rows cols - 1) / 2 -> exists r : bsf, toric_mwpm_decode matcher rows cols (syndrome_of S e) = Some r /\ length r = (n + n)%nat /\ syndrome_of S r = syndrome_of S e /\ in_spanP (n + n) S (xorv r e).
+Proof. exact toric_mwpm_decode_corrects. Qed.
+Theorem c14_tbrute_matcher_contract : forall (g : list (Z * Z * Z * (Z * Z * Z) * option Z)) (nodes : list (Z * Z * Z)), (exists m : list (Z * Z * Z * (Z * Z * Z)), Permutation.Permutation (MwpmRel.ends2 m) nodes /\ tuses g m) -> tmin_matching g nodes (tbrute_matcher g nodes).
+Proof. exact tbrute_matcher_contract. Qed.
+Theorem c14_toric_mwpm_brute_corrects : forall rows cols : Z, 2 <= rows -> 2 <= cols -> forall e : bsf, let n := Toric.toric_n rows cols in let S := Code.stabs (Toric.toric_code rows cols) in length e = (n + n)%nat -> Z.of_nat (count_true (firstn n e)) <= (Z.min rows cols - 1) / 2 -> Z.of_nat (count_true (skipn n e)) <= (Z.min rows cols - 1) / 2 -> exists r : bsf, toric_mwpm_decode tbrute_matcher rows cols (syndrome_of S e) = Some r /\ length r = (n + n)%nat /\ syndrome_of S r = syndrome_of S e /\ in_spanP (n + n) S (xorv r e).
+Proof. exact toric_mwpm_brute_corrects. Qed.
+Theorem c14_toric_even_parity_all : ToricMwpm.toric_even_parity_statement.
+Proof. exact toric_even_parity_all. Qed.
+Theorem c14_toric_light_commuting_in_span : forall rows cols : Z, 2 <= rows -> 2 <= cols -> forall f : bsf, length f = (Toric.toric_n rows cols + Toric.toric_n rows cols)%nat -> (forall s : bsf, In s (Code.stabs (Toric.toric_code rows cols)) -> bsp f s = false) -> Z.of_nat (count_true (firstn (Toric.toric_n rows cols) f)) < Z.min rows cols -> Z.of_nat (count_true (skipn (Toric.toric_n rows cols) f)) < Z.min rows cols -> in_spanP (Toric.toric_n rows cols + Toric.toric_n rows cols) (Code.stabs (Toric.toric_code rows cols)) f.
+Proof. exact toric_light_commuting_in_span. Qed.
+Theorem c14_toric_defects_matching_le_weight : forall rows cols : Z, 2 <= rows -> 2 <= cols -> forall (px : bool) (e : bsf), length e = (Toric.toric_n rows cols + Toric.toric_n rows cols)%nat -> let syn := syndrome_of (Code.stabs (Toric.toric_code rows cols)) e in exists mw : twmates, tperfect_in (MwpmGraph.toric_graph rows cols (tlat px) syn) (ToricMwpm.lattice_defects rows cols (tlat px) syn) mw /\ twtotal mw <= Z.of_nat (count_true (tpart rows cols px e)).
+Proof. exact toric_defects_matching_le_weight. Qed.
+Theorem c14_ptaxi_tri : forall rows cols : Z, 2 <= rows -> 2 <= cols -> forall a b c : Z * Z * Z, MwpmGraph.ptaxi rows cols a c <= MwpmGraph.ptaxi rows cols a b + MwpmGraph.ptaxi rows cols b c.
+Proof. exact ptaxi_tri. Qed.
+Print Assumptions c14_toric_mwpm_corrects_all.
+Print Assumptions c14_toric_mwpm_decode_corrects.
+Print Assumptions c14_tbrute_matcher_contract.
+Print Assumptions c14_toric_mwpm_brute_corrects.
+Print Assumptions c14_toric_even_parity_all.
+Print Assumptions c14_toric_light_commuting_in_span.
+Print Assumptions c14_toric_defects_matching_le_weight.
+Print Assumptions c14_ptaxi_tri.
